@@ -11,6 +11,7 @@ let table : (string * (Model.sexp -> Model.sexp)) list = [
   "c03p", Model.c03p_check;
   "c15", Model.c15_check;
   "c16", Model.c16_check;
+  "c16f", Model.c16f_check;
   "c11", Model.c11_check;
   "c11a", Model.c11a_check;
 ]
